@@ -88,9 +88,12 @@ def run(chk):
     chk.rule("C06.R4", "the default specification selects the network parameters only, for every term", floor=3)
     Params = E.Params
 
-    def mask_tree(sel, order=EQ_KEYS):
-        # the mask is matched with the parameters by key: its own insertion order is immaterial
-        return Params.make(nn_params=bool(sel['nn_params']), eq_params={k: bool(sel[k]) for k in order})
+    def mask_tree(sel, order=EQ_KEYS, as_numpy=False):
+        # the mask is matched with the parameters by key: its own insertion order is immaterial; its leaves are booleans, given as
+        # Python bools or as numpy / jax boolean scalars (what a loss that went through jit carries)
+        import numpy as _np
+        b = (lambda v: _np.bool_(bool(v))) if as_numpy else bool
+        return Params.make(nn_params=b(sel['nn_params']), eq_params={k: b(sel[k]) for k in order})
 
     def to_str(sel):
         eq = [sel[k] for k in EQ_KEYS]
@@ -132,6 +135,7 @@ def run(chk):
         plan = [x + ({},) for x in plan]
         # observations that come with observed values of one equation parameter: the other parameters are still routed as specified
         plan += [('PINN', a, EQ_KEYS, (), {'observed': ('nu',)}) for a in toggles]
+        plan += [('PINN', a, EQ_KEYS, (), {'mask_leaves': 'numpy booleans'}) for a in toggles]
         if eq_type != 'ODE':
             # boundary conditions given facet by facet
             facets = ('xmin', 'xmax', 'ymin', 'ymax')
@@ -151,10 +155,12 @@ def run(chk):
                     cfg["observed_parameters"] = list(var['observed'])
                 if var.get('per_facet'):
                     cfg["boundary"] = "per facet"
+                if var.get('mask_leaves'):
+                    cfg["mask_leaves"] = var['mask_leaves']
                 res = {}
 
                 def build(a=a, eq_type=eq_type, kind=kind, conf=conf, terms=terms, dkcls=dkcls, order=order, pk=pk, var=var):
-                    masks = {t: mask_tree({g: a[(t, g)] for g in GROUPS}, order) for t in terms}
+                    masks = {t: mask_tree({g: a[(t, g)] for g in GROUPS}, order, as_numpy=bool(var.get('mask_leaves'))) for t in terms}
                     dk = dkcls(**masks)
                     S = SingleLoss(E, eq_type, kind, d=2, m_u=1, m_res=1, terms=conf, eq_keys=EQ_KEYS, derivative_keys=dk,
                                    per_facet=var.get('per_facet'))
